@@ -10,6 +10,7 @@ RULE = ("one case = (method (uniform or adaptive grid), direction, dense flag, w
         "bit-equal sol(t), otherwise a nearest recorded sample, whole-run time slices in either direction; non-trivial = >=5 recorded rows; distinct by "
         "(method, direction, dense, continuation, seed)")
 ASSUMPTIONS = ["nearest: |t_ret - q| <= min_k |t_k - q| * (1 + 64 eps) + 4 ulp (ties may go either way)"]
+RULE += " Strata added in the fourth seeding round: Six- and seven-level Richardson wrappers with dense output: every time inside a recorded step is answered by a piece that contains it."
 FLOORS = {"quick": {"systems": 60, "index_lookups": 1500, "time_lookups_nodense": 2000, "time_lookups_dense": 800, "backward_systems": 20, "slices": 100, "iterations": 60, "early_sequence_checks": 120, "array_lookups": 15, "systems_with_grid_spacing_below_sqrt_eps": 8, "richardson_many_level_systems": 5, "richardson_lookups_checked_for_containment": 150},
           "thorough": {"systems": 600, "index_lookups": 15000, "time_lookups_nodense": 20000, "time_lookups_dense": 8000, "backward_systems": 200, "slices": 1000, "iterations": 600, "early_sequence_checks": 1200, "array_lookups": 150, "systems_with_grid_spacing_below_sqrt_eps": 80, "richardson_many_level_systems": 30, "richardson_lookups_checked_for_containment": 900}}
 METHODS = ["RK4Solver", "RK45CKSolver", "DOPRI45", "EulerSolver", "RK8713MSolver", "ABAs5o6HSolver", "RadauIIA5", "HeunEulerSolver"]
